@@ -96,7 +96,13 @@ func (x *Explorer) step(st *State, in ssa.Instruction) bool {
 			x.bindValue(st, v, v.X)
 		} else {
 			f := st.factOf(v.X)
-			st.define(v, Fact{Nil: f.Nil, Tags: f.Tags})
+			if isZeroConst(v.Max) && (v.High == nil || isZeroConst(v.High)) {
+				// x[:0:0]: no element and no capacity: nothing of x can be read or written through it and any
+				// append to it allocates; nil exactly when x is (the clone idiom append(x[:0:0], x...))
+				st.define(v, Fact{Nil: f.Nil, Tags: TFresh})
+			} else {
+				st.define(v, Fact{Nil: f.Nil, Tags: f.Tags})
+			}
 		}
 		fr.pc++
 	case *ssa.Field:
@@ -783,4 +789,9 @@ func (x *Explorer) cellOf(st *State, addr ssa.Value) (vkey, bool) {
 		}
 	}
 	return vkey{}, false
+}
+
+func isZeroConst(v ssa.Value) bool {
+	c, ok := v.(*ssa.Const)
+	return ok && c.Value != nil && c.Value.String() == "0"
 }
